@@ -203,12 +203,17 @@ func partBC(r *vreport.Run) {
 	if r.Thorough() {
 		n = 3
 	}
-	tables := goodTables[:n]
+	partBCHistory(r, goodTables[:n], "")
+	// a history whose snapshots shrink: what an earlier, longer save left behind must not show through a later, shorter one
+	partBCHistory(r, []table{goodTables[1], goodTables[0]}, "-shrinking")
+}
+
+func partBCHistory(r *vreport.Run, tables []table, suffix string) {
 	// count the operations of the fault-free history
 	vos.Reset()
 	history(tables)
 	total := vos.Cur.Mutations()
-	r.Bound("db_history_ops", total)
+	r.Bound("db_history_ops"+suffix, total)
 	allowedUpTo := func(k int) map[string]bool {
 		m := map[string]bool{"": true}
 		for i := 0; i < k; i++ {
@@ -247,6 +252,30 @@ func partBC(r *vreport.Run) {
 				r.Outcome(part, kind, opName, im.Desc, state)
 				if ii > 0 {
 					r.Nontrivial()
+				}
+			}
+			if ii > 0 && !panicked && err == nil && allowed[state] {
+				// second lifetime on the crash image: one fault-free save of the shortest table; whatever the first lifetime
+				// left behind (temporary files included), the file must still load to a snapshot saved so far
+				r.Case()
+				vos.Cur.FaultAt = -1
+				var st2 string
+				var err2 error
+				p2, pv2, stack2 := vplug.Try(func() { history([]table{goodTables[0]}); st2, err2 = loadState() })
+				r.Steps(int64(vos.Cur.Mutations()))
+				feats["lifetime"] = "2"
+				switch {
+				case p2:
+					feats["site"] = vreport.PanicSite(stack2)
+					r.Violation("panic", feats, pv2+"\n"+stack2, c)
+				case err2 != nil:
+					content, _ := vos.Cur.Content(curPath)
+					r.Violation("unloadable-after-"+part, feats, fmt.Sprintf("%s at op %d (%s), image %q, then a restart and one save: offsets file does not load: %v\nfile:\n%q", kind, k, opName, im.Desc, err2, content), c)
+				case !allowed[st2] && st2 != canon(goodTables[0]):
+					content, _ := vos.Cur.Content(curPath)
+					r.Violation("not-a-snapshot", feats, fmt.Sprintf("%s at op %d (%s), image %q, then a restart and one save: loaded state is not one of the saved snapshots: %s\nfile:\n%q", kind, k, opName, im.Desc, st2, content), c)
+				default:
+					r.Outcome(part, kind, opName, im.Desc, "second-lifetime", st2)
 				}
 			}
 		}
